@@ -28,6 +28,10 @@ Definition ex_m := mkmgr [Missing; Missing; Have] [(1, ex_peer1); (2, ex_peer2)]
 Example C13_nonvacuous : choose_with (rarest_list ex_m) ex_peer1 = Some 1 /\ pick_ok ex_m ex_peer1 (Some 0) = false.
 Proof. vm_compute. split; reflexivity. Qed.
 
+(* the number in the property text ("unless fewer than ten pieces remain") is the code's constant, pinned here: a
+   changed END_GAME_LIMIT breaks this file *)
+Example C13_ten_pinned : session_END_GAME_LIMIT = 10. Proof. reflexivity. Qed.
+
 Print Assumptions C13_pick.
 Print Assumptions C13_pick_spec.
 Print Assumptions C13_allowed.
